@@ -321,6 +321,20 @@ func generate(seed uint64, tier string) {
 		w.Hist("rr-wrap")
 		w.End()
 	}
+	// 1c. the counter around the widths a narrower counter type would have (2^16, 2^31, 2^32, 2^63):
+	// the cycle must not notice them
+	for _, n := range []int{3, 5, 7, 100, 255} {
+		for _, bit := range []uint{16, 31, 32, 63} {
+			newCase("rr-width")
+			setup("rr", n)
+			exec("setctr", []string{tr.U64(1<<bit - 1 - uint64(r.Intn(5)))})
+			for i := 0; i < 12; i++ {
+				exec("next", []string{"nil"})
+			}
+			w.Hist("rr-width")
+			w.End()
+		}
+	}
 	// 2. least connections: scripted count vectors
 	for _, n := range sizes(tier) {
 		newCase("lc-vectors")
